@@ -344,7 +344,7 @@ def solve(ctx: Ctx, ob: Ob) -> Result:
     if ob.need_loop_assertions:
         sp = base + ['--show-properties', '--json-ui']
         rc2, out2, _ = run(sp, 300)
-        n = len(re.findall(r'loop invariant|loop variant|decreases clause|invariant before entry|invariant is preserved|assigns clause', out2, re.I))
+        n = len(re.findall(r'loop invariant|loop variant|decreases clause|invariant before entry|invariant is preserved|__init_invariant|tmp_cc\$\d+ < tmp_cc|loop_invariant_base|loop_invariant_step|loop_decreases', out2, re.I))
         res.loop_assertions = n
         if n < ob.need_loop_assertions and st == 'pass':
             res.status, res.detail = 'error', 'vacuity guard: only %d loop-contract assertions (need %d): loop contract silently dropped?' % (n, ob.need_loop_assertions)
